@@ -5,10 +5,12 @@ import (
 	"bytes"
 	"encoding/json"
 	"fmt"
+	"io"
 	"math/rand"
 	"os"
 	"runtime"
 	"strconv"
+	"strings"
 	"sync"
 	"sync/atomic"
 	"time"
@@ -19,6 +21,7 @@ import (
 	"github.com/EliCDavis/polyform/generator/parameter"
 	"github.com/EliCDavis/polyform/nodes"
 	"github.com/EliCDavis/polyform/refutil"
+	"github.com/EliCDavis/vector/vector3"
 )
 
 // ---------------------------------------------------------------------------
@@ -147,14 +150,56 @@ type psSystem struct {
 	gates *Gates
 }
 
-// producers: "a" = text(n5), "b" = text(n6)
+// params 1,2: strings; param 3: []vector3 (slice valued). Nodes 4..7 are gated string nodes,
+// node 8 is the lazy vector artifact. producers: "a" = text(n6), "b" = text(n7), "c" = vec(n8)
 var psWire = []WireRec{
-	{N: 3, A: 1, B: 2, Arr: []int{}},
-	{N: 4, A: 3, B: 1, Arr: []int{}},
-	{N: 5, A: 3, B: 4, Arr: []int{}},
-	{N: 6, A: 2, B: 3, Arr: []int{}},
+	{N: 4, A: 1, B: 2, Arr: []int{}},
+	{N: 5, A: 4, B: 1, Arr: []int{}},
+	{N: 6, A: 4, B: 5, Arr: []int{}},
+	{N: 7, A: 2, B: 4, Arr: []int{}},
+	{N: 8, A: 3, B: 0, Arr: []int{}},
 }
-var psProd = []int{5, 6} // art p=1 -> "a" (node 5), p=2 -> "b" (node 6)
+var psProd = []int{6, 7, 8} // art p=1 -> "a", p=2 -> "b", p=3 -> "c"
+
+// VecArt keeps a reference to the slice it was built from and formats it only
+// when written - as real artifacts (glTF scenes, meshes) do: they are serialised
+// by the caller after Artifact() returned, outside the producer lock.
+type VecArt struct{ Data []vector3.Float64 }
+
+func (a VecArt) Write(w io.Writer) error {
+	parts := make([]string, len(a.Data))
+	for i, v := range a.Data {
+		parts[i] = strconv.Itoa(int(v.X()))
+	}
+	_, err := w.Write([]byte("c[" + strings.Join(parts, ";") + "]"))
+	return err
+}
+
+func (VecArt) Mime() string { return "text/plain" }
+
+type VecArtData struct {
+	In nodes.NodeOutput[[]vector3.Float64]
+}
+
+func (d VecArtData) Process() (artifact.Artifact, error) {
+	if d.In == nil {
+		return VecArt{}, nil
+	}
+	return VecArt{Data: d.In.Value()}, nil
+}
+
+type VecArtNode = nodes.Struct[artifact.Artifact, VecArtData]
+
+// slice value of parameter 3 for model value v = tag*10 + length
+func vecValue(v int) []vector3.Float64 {
+	n, tag := v%10, v/10
+	out := make([]vector3.Float64, n)
+	for i := range out {
+		x := float64(tag*100 + i + 1)
+		out[i] = vector3.New(x, x, x)
+	}
+	return out
+}
 
 func newPSSystem() *psSystem {
 	g := &Gates{clients: map[int64]int{}, events: make(chan gateEvent, 1024), release: map[int]chan struct{}{}, open: true}
@@ -162,6 +207,7 @@ func newPSSystem() *psSystem {
 	for p := 1; p <= 2; p++ {
 		params[p] = &parameter.Value[string]{Name: "p" + strconv.Itoa(p), DefaultValue: paramTerm(p, 1)}
 	}
+	vecParam := &parameter.Value[[]vector3.Float64]{Name: "p3", DefaultValue: vecValue(1)}
 	ns := map[int]*GNode{}
 	out := func(s int) nodes.NodeOutput[string] {
 		if s <= 2 {
@@ -169,20 +215,23 @@ func newPSSystem() *psSystem {
 		}
 		return ns[s].Out()
 	}
-	for _, w := range psWire {
+	for _, w := range psWire[:4] {
 		ns[w.N] = &GNode{Data: GData{ID: w.N, G: g}}
 	}
-	for _, w := range psWire {
+	for _, w := range psWire[:4] {
 		ns[w.N].Data.A = out(w.A)
 		ns[w.N].Data.B = out(w.B)
 	}
+	vecNode := &VecArtNode{Data: VecArtData{In: vecParam.Out()}}
 	inst := graph.New(&refutil.TypeFactory{})
-	inst.AddProducer("a", basics.NewTextNode(ns[5].Out()))
-	inst.AddProducer("b", basics.NewTextNode(ns[6].Out()))
+	inst.AddProducer("a", basics.NewTextNode(ns[6].Out()))
+	inst.AddProducer("b", basics.NewTextNode(ns[7].Out()))
+	inst.AddProducer("c", vecNode.Out())
 	sys := &psSystem{inst: inst, gates: g, pids: map[int]string{}}
 	for p := 1; p <= 2; p++ {
 		sys.pids[p] = inst.NodeId(params[p])
 	}
+	sys.pids[3] = inst.NodeId(vecParam)
 	return sys
 }
 
@@ -202,7 +251,12 @@ func (s *psSystem) call(op PSOp) (res string) {
 	}()
 	switch op.Op {
 	case "upd":
-		msg, _ := json.Marshal(paramTerm(op.P, op.V))
+		var msg []byte
+		if op.P == 3 {
+			msg, _ = json.Marshal(vecValue(op.V))
+		} else {
+			msg, _ = json.Marshal(paramTerm(op.P, op.V))
+		}
 		_, err := s.inst.UpdateParameter(s.pids[op.P], msg)
 		if err != nil {
 			return "ERR"
@@ -210,17 +264,23 @@ func (s *psSystem) call(op PSOp) (res string) {
 		return "ok"
 	case "get":
 		data := s.inst.ParameterData(s.pids[op.P])
+		if op.P == 3 {
+			var vs []vector3.Float64
+			if err := json.Unmarshal(data, &vs); err != nil {
+				return "ERR"
+			}
+			return artString(VecArt{Data: vs})
+		}
 		var v string
 		if err := json.Unmarshal(data, &v); err != nil {
 			return "ERR"
 		}
 		return v
 	case "art":
-		name := "a"
-		if op.P == 2 {
-			name = "b"
-		}
-		return artString(s.inst.Artifact(name))
+		name := []string{"a", "a", "b", "c"}[op.P]
+		a := s.inst.Artifact(name)
+		s.gates.Hit(0, 9) // the caller serialises the artifact after Artifact() returned
+		return artString(a)
 	}
 	return "ERR"
 }
@@ -271,6 +331,7 @@ func runPSCase(h int, cs PSCase) []psLine {
 					<-start[c]
 				}
 				rec.add(psLine{K: "inv", C: c, Op: op.Op, P: op.P, V: op.V, H: h})
+				g.Hit(0, 8) // invoked but not yet inside the call: one scheduler step, as Start/StepIn in ParamServer.tla
 				res := sys.call(op)
 				rec.add(psLine{K: "resp", C: c, Op: op.Op, P: op.P, V: op.V, Res: res, H: h})
 				if directed {
@@ -438,14 +499,19 @@ func GenParamServerStress(out string, seed int64, n, clients, ops int) error {
 		for c := 0; c < nc; c++ {
 			prog := []PSOp{}
 			for k := 0; k < ops; k++ {
-				switch r.Intn(5) {
+				switch r.Intn(6) {
 				case 0, 1:
-					prog = append(prog, PSOp{Op: "upd", P: 1 + r.Intn(2), V: val})
+					p := 1 + r.Intn(3)
+					if p == 3 {
+						prog = append(prog, PSOp{Op: "upd", P: 3, V: (val%9+1)*10 + 1 + r.Intn(5)})
+					} else {
+						prog = append(prog, PSOp{Op: "upd", P: p, V: val})
+					}
 					val++
 				case 2:
-					prog = append(prog, PSOp{Op: "get", P: 1 + r.Intn(2)})
+					prog = append(prog, PSOp{Op: "get", P: 1 + r.Intn(3)})
 				default:
-					prog = append(prog, PSOp{Op: "art", P: 1 + r.Intn(2)})
+					prog = append(prog, PSOp{Op: "art", P: 1 + r.Intn(3)})
 				}
 			}
 			cs.Progs = append(cs.Progs, prog)
